@@ -6,6 +6,14 @@ HOOK_COMMITS = ["3713a50"]
 
 # id -> (technique, level text, level note, design ref)
 CHECKS = {
+ "C02": ("exhaustive crash-point enumeration: a forked copy of the process _exits instead of executing call k, for every k of every scenario, followed by a fresh-handle recovery suite",
+         "246 scenarios (operation x pre-state x front-end) x every intercepted call boundary (~6.7k crash states; thorough adds a second crash at every call of the recovering process): on the surviving tree every key-named file is a complete read-only value for its key, debris is confined to .kismet_temp, maintenance by a fresh handle keeps young temp files and reclaims old ones, and get/touch/put/set/ensure through a fresh handle obey register semantics.",
+         "Process death, not power loss (kernel state intact). Trusted: shim (the death is injected in the interposed call), snapshot code.",
+         "DESIGN.md §4 C02"),
+ "C18": ("exhaustive single-fault enumeration: every intercepted call of every scenario x every errno plausible for that call kind (thorough: double faults for short operations, effect-then-fail)",
+         "~21k (quick) fault cases over the C02 scenario table: no panic but the documented one, Err or Ok-with-effect-verified-on-disk, C02's validity predicate, no leaked temp file or descriptor, and the operation succeeds when re-issued without the fault.",
+         "Absence errnos (ENOENT/ESTALE) on a probe of the key's own path are by documented classification 'not there'; only validity is checked for those. Trusted: shim fault injection, errno table of DESIGN.md §3.3.",
+         "DESIGN.md §4 C18"),
  "C03": ("exhaustive enumeration of publishing paths x configurations with a per-inode event-order monitor on the intercepted call trace, plus every fsync failing in turn",
          "Every publishing API path x writer front-end x value size x maintenance on/off is executed on the real code; the call trace must show, for the inode that becomes visible, last content event < successful fsync < write-bits stripped <= rename/link, and nothing but reads/stat/atime/unlink afterwards. auto_sync(false) cells are the control that the monitor can tell the difference. Each fsync of each cell then fails with EIO/ENOSPC: error or documented panic, never a publication.",
          "Judges call order, not what a disk does after power loss. Trusted: shim trace (inode of every fd/path event).",
